@@ -4,10 +4,12 @@ CONSTANTS
   BugGlobalFallback = FALSE
   BugSharedInstance = FALSE
   BugCloneShares = FALSE
+  BugShCoupled = FALSE
   Focus = "objects"
   Emit = TRUE
 INVARIANT Reproducible
 INVARIANT SeedsDiffer
+INVARIANT NoDeviateUsedTwice
 INVARIANT GlobalUntouched
 INVARIANT EmitBehaviour
 CHECK_DEADLOCK FALSE
